@@ -180,6 +180,50 @@ def probes():
     t2.submit(run_mode=RunMode.DRY_RUN)
     out["shared"] = dict(first_job=canon_path(t1.__xpm__.job.path), second_job=canon_path(t2.__xpm__.job.path),
                          path_in_second=canon_path(t2.c.p))
+    # generated paths against the job directory the task ends up with
+    from vpk_c17 import probe as PB
+
+    def inside(name, build):
+        try:
+            t, paths = build()
+            out[name] = dict(jobdir=canon_path(t.__xpm__.job.path), paths=[canon_path(p) for p in paths])
+        except Exception as e:  # noqa
+            out[name] = dict(error=f"{type(e).__name__}: {e}")
+
+    def marked_twice():
+        out1 = PB.TLearn(model=PB.PModel(n=1), epochs=1).submit(run_mode=RunMode.DRY_RUN)
+        t2 = PB.TLearn(model=out1, epochs=2)
+        t2.submit(run_mode=RunMode.DRY_RUN)
+        return t2, [t2.log]
+
+    def marked_pre(as_init):
+        def build():
+            model = PB.PModel(n=2)
+            t = PB.TLearnSub(sub=PB.PLeaf(x=1), model=model)
+            ld = PB.PLoader(model=model)
+            if as_init:
+                t.submit(run_mode=RunMode.DRY_RUN, init_tasks=[ld])
+            else:
+                t.add_pretasks(ld)
+                t.submit(run_mode=RunMode.DRY_RUN)
+            return t, [t.sub.path, ld.cache]
+        return build
+
+    def resubmit():
+        t = PB.TNamed(sub=PB.PLeaf(x=1))
+        try:
+            t.submit(run_mode=RunMode.DRY_RUN)
+            raise RuntimeError("the first submit was expected to fail")
+        except TypeError:
+            pass
+        t.name = "hello"
+        t.submit(run_mode=RunMode.DRY_RUN)
+        return t, [t.sub.path, t.out]
+
+    inside("marked_by_two_tasks", marked_twice)
+    inside("marked_held_by_pretask", marked_pre(False))
+    inside("marked_held_by_init_task", marked_pre(True))
+    inside("resubmit_after_failed_sealing", resubmit)
     try:
         from vpk_c17.probe import PLeaf, TIgnored, PHolder, PState, TAttach
         s = PLeaf(x=1)
